@@ -439,7 +439,7 @@ func Run(r *vk.Run) {
 	}
 	close(ch)
 	wg.Wait()
-	r.SetExhaustive(true)
+	// (not marked exhaustive: the fault dimension is enumerated completely, the contents are sampled)
 	r.Require("no-loss", 500)
 	r.Require("restart-after-crash", 100)
 }
